@@ -279,6 +279,34 @@ def run(facts, res):
             dpos = {n: [c03._writer_tag(e) for e in els] for cb_ in [dj] + facts.closures_of(dj.path) for n, els, _, _ in tables.array_literals(cb_)}
             if dpos != wpos:
                 res.violation("G4", "stage-vs-block-layout", "stage records %s and block records %s use different layouts" % (wpos, dpos), st.loc())
+    # G4c: no accepted record is dropped: from the edge on which replay_stage recognises a record by its length, the loop cannot
+    # go on to the next record without a tree insertion (an Err return leaves the loop).  Records are exported in hash-map
+    # order, so "the object is not there yet" can be true for an update record merely because it precedes the creation record.
+    if rp is not None:
+        from ..common import inlined_sites as _is
+        from ..conds import all_edge_lits as _ael
+        rcfg = cfg_of(rp)
+        add_blocks = {s_.outer_block for s_ in _is(facts, rp, lambda t: t.callee.target() == "revisiontree::RevisionTree::add", closures=False) if s_.outer_body is rp}
+        n4c = 0
+        for e_, l in _ael(rp, facts):
+            if not (l.kind == "cmp" and l.term[1] == "Eq" and l.truth is True and any(x[0] == "const" and x[1] == "int" and x[2] in (2, 3) for x in (l.term[2], l.term[3])) and
+                    any(x[0] == "call" and callee_name(x) == "len" for x in walk(l.term))):
+                continue
+            hdrs = [hb for hb, ht in rp.calls() if ht.callee is not None and ht.callee.name == "next" and rcfg.is_loop_header(hb) and rcfg.dominates(hb, l.edge[0])]
+            if not hdrs:
+                continue
+            n4c += 1
+            hdr = hdrs[-1]
+            skip = rcfg.reaches(e_, hdr, avoid=add_blocks)
+            res.instance("G4", "replay_stage: a record of length %s is never dropped (every way back to the record loop passes a tree insertion): %s" % (
+                [x[2] for x in (l.term[2], l.term[3]) if x[0] == "const"], not skip), rp.loc(rp.blocks[l.edge[0]].term.line))
+            if skip:
+                res.violation("G4", "replay_stage|record-dropped",
+                              "replay_stage can move on to the next record without inserting the current one: records are exported in hash-map order, so a "
+                              "condition such as `the object exists already` fails for an update record that precedes its creation record and the staged "
+                              "edit is lost on replay", rp.loc(rp.blocks[l.edge[0]].term.line))
+        res.floor("G4", "record-length branches in replay_stage", n4c, 2)
+
     # G4b: the consumers of record lists (whose order comes from a hash map) insert every record unconditionally:
     # no insertion may depend on what earlier records already put into the tree
     TREE_QUERIES = {"get_revisions", "get_leafs", "get_winner", "get_parent", "has_staging"}
